@@ -1,4 +1,4 @@
-CONSTANTS Client = {c1, c2, c3} Names = {"x", "y"} L = 2 MaxReq = 2 UnlockedLookup = FALSE
+CONSTANTS Client = {c1, c2, c3} Names = {"x", "y"} L = 2 MaxReq = 2 UnlockedLookup = FALSE StripSetCookie = TRUE StripSessionCookie = TRUE
 SPECIFICATION Spec
 CHECK_DEADLOCK FALSE
-INVARIANTS NoLeak IssuedOnce Isolation NoFatal
+INVARIANTS NoLeak IssuedOnce Isolation NoFatal SessionCookieHidden
